@@ -942,6 +942,16 @@ def _deref(pe, st, v):
     return v
 
 
+def _seq_len(pe, v):
+    if v[0] == "array":
+        return len(v[1])
+    if v[0] == "hview":
+        return v[3] - v[2]
+    if v[0] == "harr":
+        return pe.heap.length(v)
+    return None
+
+
 def _as_iter(pe, st, v):
     if v == TOP:
         return None
@@ -957,6 +967,11 @@ def _as_iter(pe, st, v):
         return ("iter", tuple(v[1]), 0)
     if v[0] == "ref":
         tgt = pe._load_ptr(st, v[1])
+        if tgt != TOP and v[1][0] == "place" and tgt[0] in ("array", "hview", "harr"):
+            # elements addressed through the place, so that `for x in slice.iter_mut()` / `for x in &mut *slice` can write
+            n = _seq_len(pe, tgt)
+            base = v[1]
+            return ("iter", tuple(("ref", ("place", base[1], base[2], tuple(base[3]) + ({"cidx": i, "fe": False},))) for i in range(n)), 0)
         if tgt != TOP and tgt[0] == "array":
             return ("iter", tuple(("ref", ("const", x)) for x in tgt[1]), 0)
         if tgt != TOP and tgt[0] == "symvec" and len(tgt) > 1:
@@ -969,7 +984,8 @@ def _as_iter(pe, st, v):
     return None
 
 
-@pmodel("<I as std::iter::IntoIterator>::into_iter", "<std::vec::Vec<T, A> as std::iter::IntoIterator>::into_iter",
+@pmodel("<I as std::iter::IntoIterator>::into_iter", "std::iter::IntoIterator::into_iter", "<std::vec::Vec<T, A> as std::iter::IntoIterator>::into_iter",
+        "core::slice::iter::<impl std::iter::IntoIterator for &'a mut [T]>::into_iter",
         "std::array::iter::<impl std::iter::IntoIterator for [T; N]>::into_iter",
         "core::slice::iter::<impl std::iter::IntoIterator for &'a [T]>::into_iter", "core::slice::<impl [T]>::iter")
 def _into_iter(pe, st, args, t):
@@ -1354,6 +1370,122 @@ def _fold(pe, st, args, t):
     return acc
 
 
+@pmodel("std::iter::Iterator::last", "std::iter::Iterator::nth", "std::iter::Iterator::max", "std::iter::Iterator::min",
+        "std::iter::Iterator::product")
+def _iter_scalar(pe, st, args, t):
+    nm = (t.get("callee") or t.get("declared") or "").rsplit("::", 1)[1]
+    src = args[0]
+    cur = _deref(pe, st, src) if (src != TOP and src[0] == "ref") else src
+    it = _as_iter(pe, st, cur)
+    if it is None or (len(it) > 3 and it[3] == ("cycle",) and nm != "nth"):
+        raise _Abort("top", "%s() of an unknown iterator" % nm)
+    vals = list(it[1][it[2]:])
+    if nm == "last":
+        return some(vals[-1]) if vals else NONE
+    if nm == "nth":
+        n = args[1]
+        if n == TOP or n[0] != "int":
+            raise _Abort("top", "nth() with an unknown index")
+        if src != TOP and src[0] == "ref" and src[1][0] == "place":
+            pe.store_ptr(st, src[1], ("iter", it[1], min(len(it[1]), it[2] + n[2] + 1)) + tuple(it[3:]))
+        return some(vals[n[2]]) if n[2] < len(vals) else NONE
+    ints = [_deref_all(pe, st, x) for x in vals]
+    if any(x == TOP or x[0] != "int" for x in ints):
+        raise _Abort("top", "%s() of unknown integers" % nm)
+    if nm == "product":
+        ty = t.get("dest_ty") or "usize"
+        tot = 1
+        for x in ints:
+            tot *= x[2]
+        from .fold import fits
+        if not fits(ty, tot):
+            raise _Abort("diverge", "product() overflows %s" % ty)
+        return mk_int(ty, tot)
+    if not vals:
+        return NONE
+    best = 0
+    for k, x in enumerate(ints):
+        if (nm == "max" and x[2] >= ints[best][2]) or (nm == "min" and x[2] < ints[best][2]):
+            best = k
+    return some(vals[best])
+
+
+@pmodel("std::iter::Iterator::find", "std::iter::Iterator::find_map", "std::iter::Iterator::rposition")
+def _iter_find(pe, st, args, t):
+    nm = (t.get("callee") or t.get("declared") or "").rsplit("::", 1)[1]
+    r = args[0]
+    cur = _deref(pe, st, r)
+    it = _as_iter(pe, st, cur)
+    if it is None or r == TOP or r[0] != "ref" or (len(it) > 3 and it[3] == ("cycle",)):
+        raise _Abort("top", "%s() of an unknown iterator" % nm)
+    vals = it[1][it[2]:]
+    if nm == "rposition":
+        for k in range(len(vals) - 1, -1, -1):
+            if _truth(pe.invoke_closure(st, args[1], [vals[k]]), nm):
+                return some(mk_int("usize", k))
+        return NONE
+    for k, x in enumerate(vals):
+        if nm == "find":
+            if _truth(pe.invoke_closure(st, args[1], [("ref", ("const", x))]), nm):
+                pe.store_ptr(st, r[1], ("iter", it[1], it[2] + k + 1))
+                return some(x)
+        else:
+            o = _known_adt(pe.invoke_closure(st, args[1], [x]), OPTION, nm)
+            if o[3] == "Some":
+                pe.store_ptr(st, r[1], ("iter", it[1], it[2] + k + 1))
+                return o
+    pe.store_ptr(st, r[1], ("iter", it[1], len(it[1])))
+    return NONE
+
+
+@pmodel("std::iter::Iterator::filter_map", "std::iter::Iterator::flat_map", "std::iter::Iterator::flatten",
+        "std::iter::Iterator::copied", "std::iter::Iterator::cloned", "std::iter::Iterator::by_ref", "std::iter::Iterator::inspect",
+        "std::iter::Iterator::peekable", "std::iter::Iterator::fuse")
+def _iter_adapt(pe, st, args, t):
+    nm = (t.get("callee") or t.get("declared") or "").rsplit("::", 1)[1]
+    if nm == "by_ref":
+        return args[0]
+    it = _as_iter(pe, st, args[0])
+    if it is None or (len(it) > 3 and it[3] == ("cycle",)):
+        raise _Abort("top", "%s() of an unknown iterator" % nm)
+    vals = list(it[1][it[2]:])
+    if nm in ("peekable", "fuse"):
+        return ("iter", tuple(vals), 0)
+    if nm in ("copied", "cloned"):
+        return ("iter", tuple(_deref(pe, st, x) for x in vals), 0)
+    if nm == "inspect":
+        for x in vals:
+            pe.invoke_closure(st, args[1], [("ref", ("const", x))])
+        return ("iter", tuple(vals), 0)
+    out = []
+    for x in vals:
+        if nm == "filter_map":
+            o = _known_adt(pe.invoke_closure(st, args[1], [x]), OPTION, nm)
+            if o[3] == "Some":
+                out.append(o[4][0])
+            continue
+        inner = pe.invoke_closure(st, args[1], [x]) if nm == "flat_map" else x
+        if inner != TOP and inner[0] == "adt" and inner[1] == OPTION:
+            if inner[3] == "Some":
+                out.append(inner[4][0])
+            continue
+        sub = _as_iter(pe, st, inner)
+        if sub is None or (len(sub) > 3 and sub[3] == ("cycle",)):
+            raise _Abort("top", "%s(): inner value is not a known sequence" % nm)
+        out += list(sub[1][sub[2]:])
+    return ("iter", tuple(out), 0)
+
+
+@pmodel("std::iter::Iterator::for_each")
+def _for_each(pe, st, args, t):
+    it = _as_iter(pe, st, args[0])
+    if it is None or (len(it) > 3 and it[3] == ("cycle",)):
+        raise _Abort("top", "for_each() of an unknown iterator")
+    for x in it[1][it[2]:]:
+        pe.invoke_closure(st, args[1], [x])
+    return UNIT
+
+
 @pmodel("std::iter::Iterator::count")
 def _count(pe, st, args, t):
     it = _as_iter(pe, st, args[0])
@@ -1489,6 +1621,82 @@ def _copy_from_slice(pe, st, args, t):
     return UNIT
 
 
+@pmodel("core::slice::<impl [T]>::contains")
+def _slice_contains(pe, st, args, t):
+    items = _seq_items(pe, _deref(pe, st, args[0]))
+    x = _plain_known(pe, st, args[1])
+    if items is None or x is None:
+        raise _Abort("top", "contains() on an unknown slice/value")
+    ks = [_plain_known(pe, st, i) for i in items]
+    if any(k is None for k in ks):
+        raise _Abort("top", "contains() on unknown elements")
+    return mk_bool(x in ks)
+
+
+@pmodel("core::slice::<impl [T]>::swap", "core::slice::<impl [T]>::reverse")
+def _slice_swap(pe, st, args, t):
+    r = args[0]
+    v = _deref(pe, st, r)
+    if r == TOP or r[0] != "ref" or r[1][0] != "place" or v == TOP or v[0] not in ("array", "hview", "harr"):
+        raise _Abort("top", "swap()/reverse() on an unknown slice")
+    n = _seq_len(pe, v)
+    base = r[1]
+
+    def at(i):
+        return ("place", base[1], base[2], tuple(base[3]) + ({"cidx": i, "fe": False},))
+    items = _seq_items(pe, v)
+    if (t.get("callee") or "").endswith("::swap"):
+        i, j = args[1], args[2]
+        if i == TOP or j == TOP or i[0] != "int" or j[0] != "int":
+            raise _Abort("top", "swap() with unknown indices")
+        if not (0 <= i[2] < n and 0 <= j[2] < n):
+            raise _Abort("diverge", "swap(%d, %d) out of range for length %d" % (i[2], j[2], n))
+        pe.store_ptr(st, at(i[2]), items[j[2]])
+        pe.store_ptr(st, at(j[2]), items[i[2]])
+    else:
+        for k in range(n):
+            pe.store_ptr(st, at(k), items[n - 1 - k])
+    return UNIT
+
+
+@pmodel("core::slice::<impl [T]>::to_vec", "std::slice::<impl [T]>::to_vec")
+def _slice_to_vec(pe, st, args, t):
+    items = _seq_items(pe, _deref(pe, st, args[0]))
+    if items is None:
+        raise _Abort("top", "to_vec() of an unknown slice")
+    return _vec_of(pe, items)
+
+
+@pmodel("core::slice::<impl [T]>::split_first", "core::slice::<impl [T]>::split_last", "core::slice::<impl [T]>::first_mut",
+        "core::slice::<impl [T]>::last_mut", "core::slice::<impl [T]>::get_mut")
+def _slice_parts(pe, st, args, t):
+    nm = (t.get("callee") or "").rsplit("::", 1)[1]
+    r = args[0]
+    v = _deref(pe, st, r)
+    if r == TOP or r[0] != "ref" or v == TOP or v[0] not in ("array", "hview", "harr"):
+        raise _Abort("top", "%s() on an unknown slice" % nm)
+    n = _seq_len(pe, v)
+
+    def ref_to(proj_elem):
+        if r[1][0] == "place":
+            return ("ref", ("place", r[1][1], r[1][2], tuple(r[1][3]) + (proj_elem,)))
+        return ("ref", ("const", pe._project(st, 0, v, [proj_elem])))
+    if nm == "get_mut":
+        i = args[1]
+        if i == TOP or i[0] != "int":
+            raise _Abort("top", "get_mut() with an unknown index")
+        return some(ref_to({"cidx": i[2], "fe": False})) if 0 <= i[2] < n else NONE
+    if n == 0:
+        return NONE
+    if nm == "first_mut":
+        return some(ref_to({"cidx": 0, "fe": False}))
+    if nm == "last_mut":
+        return some(ref_to({"cidx": n - 1, "fe": False}))
+    if nm == "split_first":
+        return some(("tuple", (ref_to({"cidx": 0, "fe": False}), ref_to({"sub": (1, n)}))))
+    return some(("tuple", (ref_to({"cidx": n - 1, "fe": False}), ref_to({"sub": (0, n - 1)}))))
+
+
 @pmodel("core::slice::<impl [T]>::fill")
 def _slice_fill(pe, st, args, t):
     r, val = args
@@ -1515,10 +1723,30 @@ def _slice_fill(pe, st, args, t):
 def _iter_mut(pe, st, args, t):
     r = args[0]
     v = _deref(pe, st, r)
-    if r == TOP or r[0] != "ref" or r[1][0] != "place" or v == TOP or v[0] != "array":
+    if r == TOP or r[0] != "ref" or r[1][0] != "place" or v == TOP or v[0] not in ("array", "hview", "harr"):
         raise _Abort("top", "iter_mut() on an unknown slice")
     base = r[1]
-    return ("iter", tuple(("ref", ("place", base[1], base[2], tuple(base[3]) + ({"cidx": i, "fe": False},))) for i in range(len(v[1]))), 0)
+    return ("iter", tuple(("ref", ("place", base[1], base[2], tuple(base[3]) + ({"cidx": i, "fe": False},))) for i in range(_seq_len(pe, v))), 0)
+
+
+@pmodel("core::slice::<impl [T]>::chunks_exact_mut", "core::slice::<impl [T]>::chunks_mut", "core::slice::<impl [T]>::chunks")
+def _chunks_place(pe, st, args, t):
+    r, n = args
+    v = _deref(pe, st, r)
+    nm = (t.get("callee") or "").rsplit("::", 1)[1]
+    if r == TOP or r[0] != "ref" or v == TOP or v[0] not in ("array", "hview", "harr") or n == TOP or n[0] != "int":
+        raise _Abort("top", "%s() on an unknown slice" % nm)
+    if n[2] == 0:
+        raise _Abort("diverge", "%s(0)" % nm)
+    total, k = _seq_len(pe, v), n[2]
+    end = total - total % k if nm == "chunks_exact_mut" else total
+    bounds = [(a, min(a + k, end)) for a in range(0, end, k)]
+    if r[1][0] == "place":
+        base = r[1]
+        return ("iter", tuple(("ref", ("place", base[1], base[2], tuple(base[3]) + ({"sub": (a, b)},))) for a, b in bounds), 0)
+    if nm == "chunks":
+        return ("iter", tuple(("ref", ("const", pe._project(st, 0, v, [{"sub": (a, b)}]))) for a, b in bounds), 0)
+    raise _Abort("top", "%s() on a constant slice" % nm)
 
 
 @pmodel("<std::vec::Vec<T, A> as std::ops::DerefMut>::deref_mut")
@@ -1713,9 +1941,69 @@ _int_helper("wrapping_add", lambda ty, x, y, lo, hi: mk_int(ty, (x + y - lo) % (
 _int_helper("abs_diff", lambda ty, x, y, lo, hi: mk_int(ty, abs(x - y)))
 _int_helper("checked_sub", lambda ty, x, y, lo, hi: some(mk_int(ty, x - y)) if lo <= x - y <= hi else NONE)
 _int_helper("checked_add", lambda ty, x, y, lo, hi: some(mk_int(ty, x + y)) if lo <= x + y <= hi else NONE)
-_int_helper("div_ceil", lambda ty, x, y, lo, hi: mk_int(ty, -(-x // y)) if y else TOP)
-_int_helper("rem_euclid", lambda ty, x, y, lo, hi: mk_int(ty, x % y) if y else TOP)
+def _div0(what):
+    raise _Abort("diverge", "%s by zero" % what)
+
+
+_int_helper("div_ceil", lambda ty, x, y, lo, hi: mk_int(ty, -(-x // y)) if y else _div0("div_ceil"))
+_int_helper("rem_euclid", lambda ty, x, y, lo, hi: mk_int(ty, x % abs(y)) if y else _div0("rem_euclid"))
 _int_helper("pow", lambda ty, x, y, lo, hi: mk_int(ty, x ** y) if lo <= x ** y <= hi else TOP)
+
+
+_int_helper("checked_mul", lambda ty, x, y, lo, hi: some(mk_int(ty, x * y)) if lo <= x * y <= hi else NONE)
+_int_helper("checked_div", lambda ty, x, y, lo, hi: some(mk_int(ty, int(x / y) if (x < 0) != (y < 0) and x % y else x // y)) if y else NONE)
+_int_helper("checked_rem", lambda ty, x, y, lo, hi: some(mk_int(ty, x - y * int(x / y))) if y else NONE)
+_int_helper("saturating_mul", lambda ty, x, y, lo, hi: mk_int(ty, max(lo, min(hi, x * y))))
+_int_helper("wrapping_mul", lambda ty, x, y, lo, hi: mk_int(ty, (x * y - lo) % (hi - lo + 1) + lo))
+_int_helper("min", lambda ty, x, y, lo, hi: mk_int(ty, min(x, y)))
+_int_helper("max", lambda ty, x, y, lo, hi: mk_int(ty, max(x, y)))
+_int_helper("next_multiple_of", lambda ty, x, y, lo, hi: (mk_int(ty, -(-x // y) * y) if lo <= -(-x // y) * y <= hi else TOP) if y > 0 and x >= 0 else TOP)
+
+
+def _int_unary(name, fn):
+    names = []
+    for ty in ("usize", "u8", "u16", "u32", "u64", "isize", "i32", "i64"):
+        names.append("core::num::<impl %s>::%s" % (ty, name))
+
+    @pmodel(*names)
+    def f(pe, st, args, t):
+        a = args[0]
+        if a == TOP or a[0] != "int":
+            return TOP
+        from .fold import INT_BITS as IB
+        return fn(a[1], a[2], IB.get(a[1], 64))
+    return f
+
+
+_int_unary("leading_zeros", lambda ty, x, n: mk_int("u32", n - x.bit_length()) if x >= 0 else mk_int("u32", 0))
+_int_unary("trailing_zeros", lambda ty, x, n: mk_int("u32", n if x == 0 else ((x & -x).bit_length() - 1)))
+_int_unary("count_ones", lambda ty, x, n: mk_int("u32", bin(x & ((1 << n) - 1)).count("1")))
+_int_unary("count_zeros", lambda ty, x, n: mk_int("u32", n - bin(x & ((1 << n) - 1)).count("1")))
+_int_unary("is_power_of_two", lambda ty, x, n: mk_bool(x > 0 and x & (x - 1) == 0))
+_int_unary("ilog2", lambda ty, x, n: mk_int("u32", x.bit_length() - 1) if x > 0 else TOP)
+_int_unary("isqrt", lambda ty, x, n: mk_int(ty, __import__("math").isqrt(x)) if x >= 0 else TOP)
+
+
+@pmodel("core::cmp::Ord::clamp", "std::cmp::Ord::clamp")
+def _ord_clamp(pe, st, args, t):
+    a, lo, hi = args
+    if any(x == TOP or x[0] != "int" for x in (a, lo, hi)):
+        return TOP
+    if lo[2] > hi[2]:
+        raise _Abort("diverge", "clamp with min > max")
+    return mk_int(a[1], max(lo[2], min(hi[2], a[2])))
+
+
+@pmodel("core::bool::<impl bool>::then_some", "core::bool::<impl bool>::then")
+def _bool_then(pe, st, args, t):
+    b = args[0]
+    if b == TOP or b[0] != "bool":
+        raise _Abort("top", "then() on an unknown boolean")
+    if not b[1]:
+        return NONE
+    if (t.get("callee") or "").endswith("then_some"):
+        return some(args[1])
+    return some(pe.invoke_closure(st, args[1], []))
 
 
 # --------------------------------------------------------------------------
@@ -1785,6 +2073,38 @@ def _opt_mutators(pe, st, args, t):
         v = args[1] if nm == "get_or_insert" else pe.invoke_closure(st, args[1], [])
         pe.store_ptr(st, r[1], some(v))
     return inner
+
+
+@pmodel("std::option::Option::<T>::copied", "std::option::Option::<T>::cloned", "std::option::Option::<T>::xor",
+        "std::option::Option::<T>::map_or_else", "std::option::Option::<T>::as_mut", "std::option::Option::<T>::unwrap_unchecked",
+        "std::option::Option::<T>::inspect")
+def _opt_more(pe, st, args, t):
+    nm = (t.get("callee") or "").rsplit("::", 1)[1]
+    if nm == "as_mut":
+        r = args[0]
+        o = _known_adt(_deref(pe, st, r), OPTION, nm)
+        if o[3] != "Some":
+            return NONE
+        if r == TOP or r[0] != "ref" or r[1][0] != "place":
+            raise _Abort("top", "as_mut() on an unknown Option")
+        return some(("ref", ("place", r[1][1], r[1][2], tuple(r[1][3]) + ({"dc": "Some", "vi": 1}, {"f": 0, "name": "0"}))))
+    o = _known_adt(args[0], OPTION, nm)
+    if nm in ("copied", "cloned"):
+        return some(_deref(pe, st, o[4][0])) if o[3] == "Some" else NONE
+    if nm == "xor":
+        b = _known_adt(args[1], OPTION, nm)
+        if (o[3] == "Some") != (b[3] == "Some"):
+            return o if o[3] == "Some" else b
+        return NONE
+    if nm == "map_or_else":
+        return pe.invoke_closure(st, args[2], [o[4][0]]) if o[3] == "Some" else pe.invoke_closure(st, args[1], [])
+    if nm == "inspect":
+        if o[3] == "Some":
+            pe.invoke_closure(st, args[1], [("ref", ("const", o[4][0]))])
+        return o
+    if o[3] != "Some":
+        raise _Abort("diverge", "unwrap_unchecked() of None")
+    return o[4][0]
 
 
 @pmodel("std::option::Option::<T>::ok_or")
